@@ -264,7 +264,11 @@ macro_rules! common_sync {
         }
         /// map handler: folds the unwrapped values
         pub fn h_map<const N: usize>(id: u32, a: [Tok; N]) -> Tok {
-            let hs: Vec<u64> = a.iter().map(|t| t.h).collect();
+            // (no heap use: the allocation check runs handlers too)
+            let mut hs = [0u64; N];
+            for (i, t) in a.iter().enumerate() {
+                hs[i] = t.h;
+            }
             let h = crate::sem::hfold(id, &hs);
             crate::log::ev(id, crate::log::K::HCall, crate::log::tag::TOK, h);
             crate::plan::maybe_panic(id, crate::log::K::HCall);
@@ -283,7 +287,10 @@ macro_rules! common_sync {
         }
         pub fn h_then<const N: usize>(id: u32, a: [W; N]) -> W {
             use super::Wv;
-            let hs: Vec<u64> = a.iter().map(|w| w.to_val().code()).collect();
+            let mut hs = [0u64; N];
+            for (i, w) in a.iter().enumerate() {
+                hs[i] = w.to_val().code();
+            }
             let h = crate::sem::hfold(id, &hs);
             crate::log::ev(id, crate::log::K::HCall, crate::log::tag::OTHER, h);
             crate::plan::maybe_panic(id, crate::log::K::HCall);
